@@ -59,7 +59,12 @@ class RealCon:
             z, isfloat = zpath.TOKENS[int(m.group(1))]
             return repr(conv(R(z) if isfloat else I(z)))
         sql2 = TOK.sub(sub, sql)
-        return self.con.execute(sql2, [conv(p) for p in params])
+        try:
+            return self.con.execute(sql2, [conv(p) for p in params])
+        except sqlite3.OperationalError as e:
+            if s.startswith('BEGIN') and 'locked' in str(e):
+                w.spin()
+            raise
 
     def close(self):
         self.con.close()
@@ -194,6 +199,19 @@ class RealWorld(env.BaseWorld):
         tm = types.SimpleNamespace(time=self.time, sleep=self.sleep, monotonic=self.time)
         th = types.SimpleNamespace(local=lambda: env.Local(w), get_ident=lambda: w.tid, Thread=threading.Thread)
         self._bind_modules(sq, w_open, osm, opm, tm, th)
+        import tempfile as _tf
+        import shutil as _sh
+        root = self.root
+
+        def mkdtemp(suffix=None, prefix=None, dir=None):
+            return _tf.mkdtemp(suffix=suffix, prefix=prefix, dir=root)
+        L.core.tempfile = types.SimpleNamespace(mkdtemp=mkdtemp)
+        if getattr(L, 'persistent', None) is not None:
+            L.persistent.rmtree = _sh.rmtree
+        if getattr(L, 'fanout', None) is not None:
+            L.fanout.tempfile = types.SimpleNamespace(mkdtemp=mkdtemp)
+            if hasattr(L.fanout, 'shutil'):
+                L.fanout.shutil = _sh
 
     # ---- caches
     def new_cache(self, directory=None, cls_getter=None, **settings):
